@@ -51,7 +51,7 @@ Definition exn_of_tag (n : N) : exn :=
 
 Fixpoint lookup_file (files : list (list N * resolved)) (f : list N) : resolved :=
   match files with
-  | [] => RErr FileNotFound
+  | [] => if Nat.ltb 255 (List.length f) then RErr OSError_Other else RErr FileNotFound
   | (k, r) :: rest => if list_eqb_N k f then r else lookup_file rest f
   end.
 Definition getFiles (v : val) : list (list N * resolved) :=
